@@ -1,6 +1,7 @@
 # -*- coding: utf-8 -*-
 
 import re
+from math import isfinite
 from typing import Any
 
 from .._utils import is_iterable
@@ -150,7 +151,10 @@ def _scalar_node_from_value(
             except ValueError:
                 pass
             else:
-                return _ast.FloatValue(value=str(fl))
+                # Only when the number literal reads back as the same text:
+                # "007", "1e5" or "inf" are strings, not numbers.
+                if isfinite(fl) and str(fl) == scalar_value:
+                    return _ast.FloatValue(value=scalar_value)
 
         return _ast.StringValue(value=scalar_value)
 
